@@ -610,7 +610,12 @@ def r5(ctx, kind, fn, m, sems, W, G):
                           "%s stays >= 0 (inductive)" % nm, "%r" % av)
 
 
+RULES["R03.1"] += " | entries-stay-in-place (who-may-permute): over every function of the property's modules, no Vec/slice operation that moves entries to other positions (reverse, swap, rotate, sort .., mem::swap of two entries) outside the table of sites confirmed on the pinned tree (common.PERMUTING_SITES)"
+
+
 def run(ctx):
+    from .common import no_permuting_ops
+    ctx.guard("R03.1", "entries-stay-in-place", no_permuting_ops, ctx, "R03.1", "optimizer", {"src/optimizer.rs"}, 15)
     for kind in KINDS:
         r = ctx.guard("R03.1", kind, r1_r2, ctx, kind)
         if r:
